@@ -302,18 +302,23 @@ def thr_case(rng, engine, name, limit=None, unblock=True):
     decl = []
     for p in range(np_):
         decl.append([1] + [100 * (p + 1) + k for k in range(per[p])])
-    # pops: mostly balanced (every pop can complete); sometimes fewer, rarely more (deadlock observation)
-    want = total if rng.random() < 0.8 else max(0, total + rng.choice([-2, -1, 1]))
-    nu = 0
-    if unblock and rng.random() < 0.3:
-        nu = rng.randint(1, 2)
+    destroy = rng.random() < 0.2
+    # pops: mostly balanced (every pop can complete); sometimes fewer, rarely more (deadlock observation, or cancellation
+    # by the destroyer thread)
+    want = total if rng.random() < (0.5 if destroy else 0.8) else max(0, total + rng.choice([-2, -1, 1, 2]))
     cnt = [0] * nc
     for _ in range(want):
         cnt[rng.randrange(nc)] += 1
     for c in range(nc):
         decl.append([2, cnt[c]])
-    if nu:
-        decl.append([3, nu, rng.randint(1, 9)])
+    if unblock and rng.random() < 0.3:
+        decl.append([3, rng.randint(1, 2), rng.randint(1, 9)])
+    if engine == "tlq" and rng.random() < 0.3:
+        decl.append([6, rng.randint(1, 2), rng.randint(1, 9)])
+    if rng.random() < 0.2:
+        decl.append([4, rng.randint(1, 3)])
+    if destroy:
+        decl.append([5])
     rng.shuffle(decl)
     L = rng.choice([0, 6, 12, 20, 40])
     style = rng.random()
@@ -329,6 +334,19 @@ def thr_case(rng, engine, name, limit=None, unblock=True):
     return Case(engine, name, ops)
 
 
+# small thread sets whose every schedule prefix is enumerated: races for the LAST waiter / the LAST blocked push
+RACE_CFGS = {
+    "tq": [[[2, 2], [3, 1, 7], [1, 101, 102]],            # unblock_pop races push for the only waiting pop
+           [[2, 1], [2, 1], [3, 2, 7], [1, 101]],
+           [[1, 101, 102], [2, 2], [4, 2]],
+           [[2, 2], [1, 101], [5]]],                       # the destroyer cancels what is left waiting
+    "tlq": [[[1, 101, 102, 103], [2, 2], [6, 1, 7]],      # unblock_push races pop for the only blocked push
+            [[1, 101, 102], [1, 201], [2, 3]],
+            [[2, 2], [3, 1, 7], [1, 101, 102]],
+            [[1, 101, 102, 103], [2, 1], [5]]],
+}
+
+
 def gen_ctl(seed, tier, engine):
     rng = random.Random(seed * 32452843 + (901 if engine == "tq" else 1001))
     n = 260 if tier == "quick" else 3000
@@ -336,8 +354,12 @@ def gen_ctl(seed, tier, engine):
     for i in range(n):
         limit = None if engine == "tq" else rng.choice([1, 1, 2, 2, 3, 4])
         cases.append(thr_case(rng, engine, "%s%d" % (engine, i), limit))
+    j = 0
+    for decl in RACE_CFGS[engine]:
+        for pre in itertools.product(range(3), repeat=4 if tier == "quick" else 8):
+            lim = [[0, 1]] if engine == "tlq" else []
+            cases.append(Case(engine, "%sr%d" % (engine, j), lim + decl + [[9] + list(pre)])); j += 1
     if tier != "quick":
-        j = 0
         cfgs = [[[1, 101, 102], [2, 2]], [[1, 101], [1, 201], [2, 1], [2, 1]], [[2, 2], [1, 101, 102]],
                 [[1, 101, 102], [2, 1], [2, 1]], [[1, 101], [1, 201], [2, 2]]]
         for decl in cfgs:
@@ -348,7 +370,7 @@ def gen_ctl(seed, tier, engine):
 
 
 def ctl_nontrivial(case, model_obs):
-    tids = [l.split()[0] for l in model_obs if len(l.split()) == 2 and l.split()[1] in ("70", "71", "72")]
+    tids = [l.split()[0] for l in model_obs if len(l.split()) == 2 and l.split()[1] in ("70", "71", "72", "73")]
     switches = sum(1 for a, b in zip(tids, tids[1:]) if a != b)
     return switches >= 3
 
